@@ -4,12 +4,16 @@
 EXTENDS ConfM, Json
 CONSTANTS Kinds, MaxDev
 
-VARIABLE g
-GInit == \E kk \in Kinds : g \in {[k |-> kk, s |-> sh, n |-> 1] : sh \in Shapes(kk, 1)}
-GNext == g.n < MaxDev /\ \E sh \in Extend(g.k, g.s) : g' = [k |-> g.k, s |-> sh, n |-> g.n + 1]
+VARIABLES g, fin
+GInit == fin = FALSE /\ \E kk \in Kinds : g \in {[k |-> kk, s |-> sh, n |-> 1] : sh \in Shapes(kk, 1)}
+GNext == /\ ~fin
+         /\ \/ /\ g.n < MaxDev
+               /\ \E sh \in Extend(g.k, g.s) : g' = [k |-> g.k, s |-> sh, n |-> g.n + 1]
+               /\ fin' = FALSE
+            \/ fin' = TRUE /\ UNCHANGED g       \* dedicated print step (-simulate evaluates every successor)
 \* r: the reasons of a must-reject verdict (fields whose state is class "R")
 Reasons(k, s) == {f \o "=" \o s[f] : f \in {x \in FieldSet(k) : Class(x, s[x]) = "R"}}
                  \cup (IF BothBlank(k, s) THEN {"rBasicHost+rBasicPath=blank"} ELSE {})
-Emit == PrintT(ToJson([k |-> g.k, s |-> g.s, e |-> PVerdict(g.k, g.s), m |-> MVerdict(g.k, g.s),
+Emit == fin => PrintT(ToJson([k |-> g.k, s |-> g.s, e |-> PVerdict(g.k, g.s), m |-> MVerdict(g.k, g.s),
                        r |-> Reasons(g.k, g.s)]))
 =========================================================================
